@@ -27,17 +27,29 @@ GEN_DIR = os.path.join(core.LEAN, "Gen")
 
 # the guards of `PM.Family.Facts` (lean/Props/Family.lean), in the order of its fields: (field, Lean term on `S`)
 GUARDS = [
-    ("det", "detB {S} = true"),
-    ("compatTrans", "compatTransB {S} = true"),
-    ("textLoop", "PM.Family.textLoopB {S} = true"),
-    ("textStable", "textStableB {S} = true"),
-    ("leafOk", "leafOkB {S} = true"),
-    ("fillOk", "PM.Family.fillOkK {S} = true"),
-    ("fillersOK", "{S}.fillersOKB = true"),
-    ("wrapOK", "{S}.wrapOKB = true"),
-    ("leafEmpty", "PM.Family.leafEmptyB {S} = true"),
-    ("textTy", "PM.Family.textTyB {S} = true"),
+    ("det", "detB {S}"),
+    ("compatTrans", "compatTransB {S}"),
+    ("textLoop", "PM.Family.textLoopB {S}"),
+    ("leafOk", "leafOkB {S}"),
+    ("fillOk", "PM.Family.fillOkK {S}"),
+    ("fillersOK", "{S}.fillersOKB"),
+    ("wrapOK", "{S}.wrapOKB"),
+    ("leafEmpty", "PM.Family.leafEmptyB {S}"),
+    ("textTy", "PM.Family.textTyB {S}"),
 ]
+# guards outside the bundle: they hold of a part of the family only
+EXTRA_GUARDS = [
+    ("textStable", "textStableB {S}"),   # `FromDom.TextStable` (C19 `parse_valid`): fails where a textblock requires content
+]
+# the guards that are *expected* to be false, per schema (kernel-checked as `= false`).  Deliberately a fixed table, not
+# computed: a guard that flips — because /repo compiles a schema differently — makes the generated theorem fail, which the
+# checks report as a broken obligation.
+EXPECT_FALSE = {
+    "marks-x": {"textStable"},                       # `caption` has content `inline+`: its automaton has two states
+    "bridge": {"compatTrans"},                       # built for the purpose (C04 guard cases)
+    "bridge-local": {"compatTrans"},
+    "optional-text-local": {"textLoop", "textStable"},   # `text?`
+}
 
 
 def lean_str(s):
@@ -179,21 +191,25 @@ def render(items):
 
     for name, ident, fam, sd, dump in items:
         # guards
+        lid = ident[0].lower() + ident[1:]
+        bad = EXPECT_FALSE.get(name, set())
         ls = [HEADER.rstrip("\n"), "import Gen.Schemas", "import Props.Family", "namespace PM.Gen.SchemaFacts",
               "open PM PM.FromDom PM.Gen.Schemas", ""]
-        for field, term in GUARDS:
-            ls.append("theorem %s_%s : %s := by decide +kernel" % (
-                ident[0].lower() + ident[1:], field, term.format(S="s" + ident)))
+        for field, term in GUARDS + EXTRA_GUARDS:
+            ls.append("theorem %s_%s : %s = %s := by decide +kernel" % (
+                lid, field, term.format(S="s" + ident), "false" if field in bad else "true"))
         ls.append("")
-        ls.append("/-- every schema guard the theorems use holds of schema `%s` (kernel-evaluated) -/" % name)
-        lid = ident[0].lower() + ident[1:]
-        ls.append("theorem %s_guards : PM.Family.Facts s%s :=\n  ⟨%s⟩" % (
-            lid, ident, ", ".join("%s_%s" % (lid, f) for f, _ in GUARDS)))
-        ls.append("")
+        if not any(f in bad for f, _ in GUARDS):
+            ls.append("/-- every schema guard of the bundle `PM.Family.Facts` holds of schema `%s` (kernel-evaluated) -/" % name)
+            ls.append("theorem %s_guards : PM.Family.Facts s%s :=\n  ⟨%s⟩" % (
+                lid, ident, ", ".join("%s_%s" % (lid, f) for f, _ in GUARDS)))
+            ls.append("")
+        elif fam:
+            raise RuntimeError("EXPECT_FALSE names a bundle guard of the family schema " + name)
         ls.append("end PM.Gen.SchemaFacts")
         files["SchemaFacts/%s.lean" % ident] = "\n".join(ls) + "\n"
         # construction
-        lb = [HEADER.rstrip("\n"), "import Gen.Schemas", "import PM.SchemaBuild", "import Props.Family",
+        lb = [HEADER.rstrip("\n"), "import Gen.Schemas", "import PM.SchemaBuild", "import Proofs.SchemaDecEq",
               "namespace PM.Gen.SchemaBuilds", "open PM PM.SchemaCompile PM.SchemaBuild PM.Gen.Schemas", "",
               "/-- the model of the schema constructor, run by the kernel on the spec of `%s`, produces exactly the tables" % name,
               "    the real constructor produced -/",
@@ -213,7 +229,23 @@ def render(items):
         "  intro S hS",
         "  simp only [familySchemas, List.mem_cons, List.not_mem_nil, or_false] at hS",
         "  rcases hS with " + " | ".join(["rfl"] * len(fam_items)),
-    ] + ["  · exact SchemaFacts.%s_guards" % (it[1][0].lower() + it[1][1:]) for it in fam_items] + [
+    ] + ["  · exact SchemaFacts.%s_guards" % (it[1][0].lower() + it[1][1:]) for it in fam_items]
+    dom_items = [it for it in fam_items if "textStable" not in EXPECT_FALSE.get(it[0], set())]
+    lf += [
+        "",
+        "/-- the schemas of the family of which `FromDom.TextStable` holds too (the guard of C19 `parse_valid`) -/",
+        "def domFamilySchemas : List Schema := [%s]" % ", ".join("s" + it[1] for it in dom_items), "",
+        "theorem domFamily_sub : ∀ S ∈ domFamilySchemas, S ∈ familySchemas := by",
+        "  intro S hS",
+        "  simp only [domFamilySchemas, List.mem_cons, List.not_mem_nil, or_false] at hS",
+        "  simp only [familySchemas, List.mem_cons, List.not_mem_nil, or_false]",
+        "  rcases hS with " + " | ".join(["rfl"] * len(dom_items)) + " <;> simp",
+        "",
+        "theorem domFamily_textStable : ∀ S ∈ domFamilySchemas, PM.FromDom.textStableB S = true := by",
+        "  intro S hS",
+        "  simp only [domFamilySchemas, List.mem_cons, List.not_mem_nil, or_false] at hS",
+        "  rcases hS with " + " | ".join(["rfl"] * len(dom_items)),
+    ] + ["  · exact SchemaFacts.%s_textStable" % (it[1][0].lower() + it[1][1:]) for it in dom_items] + [
         "", "end PM.Gen"]
     files["SchemaFacts.lean"] = "\n".join(lf) + "\n"
 
@@ -256,6 +288,50 @@ def regenerate():
     """returns (items, changed paths)"""
     items = collect()
     return items, write(render(items))
+
+
+def lid(ident):
+    return ident[0].lower() + ident[1:]
+
+
+def gen_theorems(items, builds):
+    """fully qualified names of the generated theorems a check audits"""
+    names = []
+    for name, ident, fam, sd, dump in items:
+        for f, _ in GUARDS + EXTRA_GUARDS:
+            names.append("PM.Gen.SchemaFacts.%s_%s" % (lid(ident), f))
+        if not any(f in EXPECT_FALSE.get(name, set()) for f, _ in GUARDS):
+            names.append("PM.Gen.SchemaFacts.%s_guards" % lid(ident))
+    names += ["PM.Gen.family_facts", "PM.Gen.domFamily_sub", "PM.Gen.domFamily_textStable"]
+    if builds:
+        for name, ident, fam, sd, dump in items:
+            names.append("PM.Gen.SchemaBuilds.%s_compiles" % lid(ident))
+            names.append("PM.Gen.SchemaBuilds.%s_builds" % lid(ident))
+        names.append("PM.Gen.family_builds")
+    return names
+
+
+def guard_table(items):
+    """{schema: {"family": bool, "guards": {guard: the truth value the kernel confirmed}}} (what the generated theorems
+    state; whether they were confirmed is the build's outcome)"""
+    out = {}
+    for name, ident, fam, sd, dump in items:
+        bad = EXPECT_FALSE.get(name, set())
+        out[name] = {"family": fam, "guards": {f: f not in bad for f, _ in GUARDS + EXTRA_GUARDS}}
+    return out
+
+
+def describe_error(loc):
+    """`Gen/SchemaFacts/Basic.lean:7` → the theorem on that line"""
+    m = re.match(r"(.*\.lean):(\d+)", loc)
+    try:
+        line = open(os.path.join(core.LEAN, m.group(1))).read().splitlines()[int(m.group(2)) - 1]
+        t = re.match(r"\s*theorem\s+(\S+)\s*:\s*(.*?)\s*:=", line)
+        if t:
+            return "%s: %s (%s)" % (m.group(1), t.group(1), t.group(2)[:160])
+    except Exception:  # noqa: BLE001
+        pass
+    return loc
 
 
 def family_modules(prop):
